@@ -109,6 +109,29 @@ func convertOutcome(sc *scenario, t reflect.Type, shared []am.Arg) (out string) 
 	return "cv:ok"
 }
 
+// redefineOutcome: rd:ok:<declared inputs> or rd:err:<class> for one Redefine of the target with the given options.
+func redefineOutcome(sc *scenario, opts []am.Arg) (out string) {
+	defer func() {
+		if p := recover(); p != nil {
+			out = "rd:panic:" + classifyPanic(p)
+		}
+	}()
+	nf, err := sc.Funcs[0].fn.Redefine(opts...)
+	if err != nil {
+		c := sc.classifyErr(err)
+		if i := strings.Index(c, " "); i > 0 {
+			c = c[:i]
+		}
+		return "rd:err:" + c
+	}
+	var ls []string
+	for _, v := range nf.Input().Values() {
+		ls = append(ls, strings.ReplaceAll(labelStr(v), ":", "/"))
+	}
+	sortStrings(ls)
+	return "rd:ok:" + strings.Join(ls, "+")
+}
+
 func genRace(w *bufio.Writer, r *rng, id int, goroutines, rounds int) {
 	c := cfgGeneral
 	c.pOnce = 35
@@ -148,6 +171,9 @@ func genRace(w *bufio.Writer, r *rng, id int, goroutines, rounds int) {
 	// sequential reference outcomes: a few calls in a row on the same function objects (memo cells fill up),
 	// then fresh objects (and fresh map orders) again
 	seq := map[string]bool{}
+	// Redefine gets the shared options plus ONE shared input filter built from an interface type and a struct type
+	sharedFilter := am.FilterInput(am.FilterOr(am.FilterType(tyOf(10)), am.FilterType(tyOf(0)), am.FilterType(tyOf(11))))
+	rdShared := func() []am.Arg { return append(append([]am.Arg(nil), shared...), sharedFilter) }
 	seqRound := func() {
 		for j := 0; j < 3; j++ {
 			var res am.Result
@@ -161,6 +187,7 @@ func genRace(w *bufio.Writer, r *rng, id int, goroutines, rounds int) {
 		if tT := sc.Funcs[0].Ins; len(tT) > 0 {
 			seq[convertOutcome(sc, tyOf(tT[0].Ty), shared)] = true
 		}
+		seq[redefineOutcome(sc, rdShared())] = true
 		sc.buildAll()
 		for _, f := range sc.Funcs {
 			f.execs = 0 // fresh objects: "first execution" scripts start over
@@ -187,6 +214,7 @@ func genRace(w *bufio.Writer, r *rng, id int, goroutines, rounds int) {
 		}
 	}()
 	raceMixed = 0
+	rdOpts := rdShared()
 	got := map[string]int{}
 	var mu sync.Mutex
 	var wg sync.WaitGroup
@@ -233,9 +261,7 @@ func genRace(w *bufio.Writer, r *rng, id int, goroutines, rounds int) {
 							rf.Call(outer...)
 							out = "redefined-call"
 						} else {
-							_, err := sc.Funcs[0].fn.Redefine(shared...)
-							out = "redefine"
-							_ = err
+							out = redefineOutcome(sc, rdOpts)
 						}
 					}
 				}()
@@ -261,7 +287,7 @@ func genRace(w *bufio.Writer, r *rng, id int, goroutines, rounds int) {
 	// order and tie-breaking): before it is reported, sample sequential executions much harder
 	unseen := func() bool {
 		for k := range got {
-			if (strings.HasPrefix(k, "ok:") || strings.HasPrefix(k, "err:") || strings.HasPrefix(k, "panic:") || strings.HasPrefix(k, "cv:")) && !seq[k] {
+			if (strings.HasPrefix(k, "ok:") || strings.HasPrefix(k, "err:") || strings.HasPrefix(k, "panic:") || strings.HasPrefix(k, "cv:") || strings.HasPrefix(k, "rd:")) && !seq[k] {
 				return true
 			}
 		}
